@@ -530,6 +530,8 @@ class Interp:
             if name in ("eq", "ne") and len(args) == 1 and isinstance(args[0], str):
                 self._cmp_ok(recv, args[0], {"a": recv_node, "b": n["args"][0], "sp": n.get("sp")})
                 return (recv == args[0]) == (name == "eq")
+            if name == "extend" and len(args) == 1 and isinstance(args[0], list) and all(isinstance(c, str) for c in args[0]):
+                return mutate(recv + "".join(str(c) for c in args[0]))      # `text.extend(chars)`
             raise Unsupported(f"str::{name}", n.get("sp"))
         if isinstance(recv, list):  # a character iterator
             if name == "map" and len(args) == 1:
@@ -543,6 +545,8 @@ class Interp:
             if name == "next" and not args:
                 # the iterator value is a list held by the interpreter: taking the first element advances it
                 return ("Some", recv.pop(0)) if recv else ("None",)
+            if name == "peek" and not args:
+                return ("Some", recv[0]) if recv else ("None",)      # (a peekable iterator: the first element stays)
             if name in ("last",) and not args:
                 return ("Some", recv[-1]) if recv else ("None",)
             if name == "count" and not args:
@@ -558,6 +562,20 @@ class Interp:
                     raise Unsupported("collect of values that are not characters or strings", n.get("sp"))
                 return "".join(str(c) for c in recv)
             raise Unsupported(f"iterator::{name}", n.get("sp"))
+        if isinstance(recv, tuple) and recv and recv[0] in ("Some", "None"):
+            # an optional character / text
+            if name == "is_some" and not args:
+                return recv[0] == "Some"
+            if name == "is_none" and not args:
+                return recv[0] == "None"
+            if name == "is_some_and" and len(args) == 1:
+                return recv[0] == "Some" and self.truth(self.apply(args[0], [recv[1]], n), n)
+            if name == "is_none_or" and len(args) == 1:
+                return recv[0] == "None" or self.truth(self.apply(args[0], [recv[1]], n), n)
+            if name == "map" and len(args) == 1:
+                return ("Some", self.apply(args[0], [recv[1]], n)) if recv[0] == "Some" else recv
+            if name in ("copied", "cloned", "as_ref"):
+                return recv
         raise Unsupported(f"method {name} on an unmodelled value", n.get("sp"))
 
 
